@@ -138,7 +138,13 @@ VectorBase<R>& VectorBase<R>::assign(const SSVectorBase<S>& vec)
       }
    }
    else
-      operator=(static_cast<const VectorBase<R>&>(vec));
+   {
+      for(int i = vec.dim() - 1; i >= 0; --i)
+      {
+         if(vec.val[i] != 0)
+            val[i] = vec.val[i];
+      }
+   }
 
    return *this;
 }
